@@ -184,3 +184,63 @@ Definition precompile_arg_struct : list ((string * string) * string) :=
     (("staking", "slashingInfo"), "staking.SlashingInfoArgs"); (("staking", "transferFromShares"), "staking.TransferFromSharesArgs");
     (("staking", "transferShares"), "staking.TransferSharesArgs"); (("staking", "undelegateV2"), "staking.UndelegateV2Args");
     (("staking", "validatorList"), "staking.ValidatorListArgs"); (("staking", "withdraw"), "staking.WithdrawArgs") ].
+
+(* handler code: every arithmetic / conversion sink that the translator sees applied to a message-derived value
+   (gen_arith_sites), with the reason why it cannot panic on a ValidateBasic-accepted message — or the finding it is. *)
+Definition known_arith_sites : list ((string * string * string * string) * string) :=
+ [
+  (("x/crosschain/keeper/batch_fee.go", "Keeper.AddUnbatchedTxBridgeFee", "Add", "tx.Fee.Amount.Add(addBridgeFee.Amount)"),
+     "the added fee has been transferred from the sender before (bank refuses amounts it does not hold)");
+  (("x/crosschain/keeper/batch_fee.go", "addFeeToMap", "Add", "batchFees.TotalAmount.Add(amt.Amount)"),
+     "sums of stored pool transactions (each backed by transferred coins)");
+  (("x/crosschain/keeper/batch_fee.go", "addFeeToMap", "Add", "batchFees.TotalFees.Add(fee.Amount)"),
+     "sums of stored pool transactions (each backed by transferred coins)");
+  (("x/crosschain/keeper/bridge_call_in.go", "Keeper.BridgeCallHandler", "Add", "baseCoins.Add(baseCoin)"),
+     "coins of a quorum-attested claim, amounts validated non-negative (edafc05); sums of at most 256-bit values backed by minted/unlocked coins");
+  (("x/crosschain/keeper/bridge_call_in.go", "Keeper.bridgeCallTransferCoins", "Add", "mintCoins.Add(coin)"),
+     "coins of a quorum-attested claim, amounts validated non-negative (edafc05); sums of at most 256-bit values backed by minted/unlocked coins");
+  (("x/crosschain/keeper/bridge_call_in.go", "Keeper.bridgeCallTransferCoins", "Add", "targetCoins.Add(targetCoin)"),
+     "coins of a quorum-attested claim, amounts validated non-negative (edafc05); sums of at most 256-bit values backed by minted/unlocked coins");
+  (("x/crosschain/keeper/bridge_call_in.go", "Keeper.bridgeCallTransferCoins", "Add", "unlockCoins.Add(coin)"),
+     "coins of a quorum-attested claim, amounts validated non-negative (edafc05); sums of at most 256-bit values backed by minted/unlocked coins");
+  (("x/crosschain/keeper/bridge_call_out.go", "Keeper.BridgeCallResultHandler", "cast:int64", "int64(claim.Nonce)"),
+     "only used to build a big.Int for an event/ABI value (property C12 covers the >= 2^63 reading)");
+  (("x/crosschain/keeper/many_to_one.go", "Keeper.EvmToBaseCoin", "NewIntFromBigInt", "sdkmath.NewIntFromBigInt(amount)"),
+     "single uint256 from the ABI decoder (or the guarded crossChain sum): at most 256 bits");
+  (("x/crosschain/keeper/msg_server.go", "MsgServer.AddDelegate", "Add", "oracle.DelegateAmount.Add(delegateCoin.Amount)"),
+     "OPEN FINDING C20-11: added before the maximum check");
+  (("x/crosschain/keeper/outgoing_pool.go", "Keeper.addToOutgoingPool", "Add", "amount.Add(fee)"),
+     "OPEN FINDING C20-10: amount + fee of MsgSendToExternal is not bounded by ValidateBasic (precompile callers are bounded since fb9127f)");
+  (("x/crosschain/precompile/cancel_send_to_external.go", "CancelSendToExternalMethod.Run", "Uint64", "args.TxID.Uint64()"),
+     "(*big.Int).Uint64 truncates, it does not panic; the truncated id is then simply not found");
+  (("x/crosschain/precompile/crosschain.go", "CrossChainMethod.Run", "Add", "big.NewInt(0).Add(args.Amount, args.Fee)"),
+     "guarded: CrossChainArgs.Validate rejects amount + fee above 256 bits (fb9127f, finding C20-9)");
+  (("x/crosschain/precompile/crosschain.go", "CrossChainMethod.Run", "NewIntFromBigInt", "sdkmath.NewIntFromBigInt(args.Amount)"),
+     "single uint256 from the ABI decoder (or the guarded crossChain sum): at most 256 bits");
+  (("x/crosschain/precompile/crosschain.go", "CrossChainMethod.Run", "NewIntFromBigInt", "sdkmath.NewIntFromBigInt(args.Fee)"),
+     "single uint256 from the ABI decoder (or the guarded crossChain sum): at most 256 bits");
+  (("x/crosschain/precompile/execute_claim.go", "ExecuteClaimMethod.Run", "Uint64", "args.EventNonce.Uint64()"),
+     "(*big.Int).Uint64 truncates, it does not panic; the truncated id is then simply not found");
+  (("x/crosschain/precompile/increase_bridge_fee.go", "IncreaseBridgeFeeMethod.Run", "NewIntFromBigInt", "sdkmath.NewIntFromBigInt(args.Fee)"),
+     "single uint256 from the ABI decoder (or the guarded crossChain sum): at most 256 bits");
+  (("x/crosschain/precompile/increase_bridge_fee.go", "IncreaseBridgeFeeMethod.Run", "Uint64", "args.TxID.Uint64()"),
+     "(*big.Int).Uint64 truncates, it does not panic; the truncated id is then simply not found");
+  (("x/crosschain/precompile/keeper.go", "Keeper.handlerERC20Token", "NewIntFromBigInt", "sdkmath.NewIntFromBigInt(amount)"),
+     "single uint256 from the ABI decoder (or the guarded crossChain sum): at most 256 bits");
+  (("x/crosschain/precompile/keeper.go", "Keeper.handlerOriginToken", "NewIntFromBigInt", "sdkmath.NewIntFromBigInt(amount)"),
+     "single uint256 from the ABI decoder (or the guarded crossChain sum): at most 256 bits");
+  (("x/erc20/keeper/keeper.go", "Keeper.TransferAfter", "Add", "coin.Add(fee)"),
+     "no caller in non-test code");
+  (("x/staking/precompile/delegation.go", "DelegationMethod.Run", "Quo", "delegation.GetShares().MulInt(validator.GetTokens()).Quo(validator.GetDelegatorShares())"),
+     "divisor = validator.DelegatorShares, positive whenever the delegation that was just found exists");
+  (("x/staking/precompile/keeper.go", "Keeper.NewStakingCoin", "NewIntFromBigInt", "sdkmath.NewIntFromBigInt(amount)"),
+     "single uint256 from the ABI decoder (or the guarded crossChain sum): at most 256 bits");
+  (("x/staking/precompile/transfer_shares.go", "TransferShare.handlerTransferShares", "Add", "toDel.Shares.Add(shares)"),
+     "shares checked against the source delegation before")
+ ].
+
+(* `for i := range A { … B[i] … }` in handler code: the validator of the message / argument struct checks len(A) = len(B)
+   (v_MsgBridgeCallClaim: "mismatched token contracts and amounts"; v_crosschain_args CA_BridgeCall: "tokens and amounts do not match") *)
+Definition length_checked_pairs : list (string * string * string) :=
+  [ ("BridgeCallMethod.Run", "args.Tokens", "args.Amounts");
+    ("Keeper.BridgeCallHandler", "msg.TokenContracts", "msg.Amounts") ].
